@@ -244,8 +244,8 @@ CLAIMED = {
             "the multiplication loops and the encodings tied by correspondence; curve constants read from the running library (generator on "
             "curve, a square / d non-square by Euler, r*G = O, 8-torsion orders evaluated by the driver; primality of p and r not established "
             "here); fp_srt / fp_inv enter the encoding theorems through their contracts (C02 class C); ed_blind, "
-            "ed_on_curve, ed_size_bin, ed_curve_get_gen are compared only; ed_mul_dig and the dispatch of ed_mul_gen / ed_mul_sim_gen are modelled and "
-            "compared without a theorem of their own. No known finding is listed (C17-F1..F8 repaired in /repo).",
+            "ed_on_curve, ed_size_bin, ed_curve_get_gen are compared only; ed_mul_dig (mul_dig) and the dispatch of ed_mul_gen / ed_mul_sim_gen (mul_gen_dispatch) have "
+            "theorems; the precomputation tables are compared entry by entry (op edtab). No known finding is listed (C17-F1..F8 repaired in /repo).",
             "findings/C17-design.md; findings/C17-1.md"),
     "C10": ("Translator (45 straight-line tower functions of src/fpx regenerated into Lean on every run and proved equal to the model "
             "definitions) + Lean 4 proofs (generic polynomial-quotient layer = R[X]/(X^k - c) via evaluation at any root, incl. Mathlib's AdjoinRoot; every "
